@@ -41,6 +41,10 @@ type c10case struct {
 	variantB  bool // first operation after Open: GetPrompt (B) or Channel.ReadUntilPrompt then GetPrompt (A)
 	rejects   int
 	silent    bool
+	// canonical: a dialogue made only of spellings / failure texts the property itself names, with a
+	// harmless banner: in the property's quantifier whatever the code's patterns say
+	canonical bool
+	canonIdx  int
 }
 
 var c10banner = []string{
@@ -236,6 +240,59 @@ func genC10(seed uint64, thorough bool) c10case {
 	return cs
 }
 
+
+// c10canonical enumerates dialogues built from the spellings the property names: each login prompt
+// spelling answered once and admitted, and each listed ssh failure text. They are in the
+// property's quantifier by definition, so the oracle judges them even if the code's own patterns
+// (which define `dom`) no longer accept them.
+func c10canonical() []c10case {
+	var out []c10case
+	mk := func(ssh bool, seg int, plan ...sim.LoginStage) {
+		out = append(out, c10case{seed: uint64(len(out)), ssh: ssh, user: "admin", pass: "secret", phrase: "keyphrase", plan: plan,
+			prompt: "router#", nl: "\n", echo: true, segClass: seg, segK: 5, depth: 1000, readSize: 8192, canonical: true, canonIdx: len(out),
+			variantB: len(out)%2 == 1})
+	}
+	shell := sim.LoginStage{Kind: sim.LoginShell, Text: "Welcome to the lab router\nrouter#"}
+	for seg := 0; seg < 2; seg++ {
+		for _, u := range []string{"Username:", "Username: ", "login:", "login: ", "router login: "} {
+			for _, p := range []string{"Password:", "Password: "} {
+				mk(false, seg, sim.LoginStage{Kind: sim.LoginUser, Text: "Authorized users only!\n" + u}, sim.LoginStage{Kind: sim.LoginPass, Text: p}, shell)
+			}
+		}
+		for _, p := range []string{"admin@host's password:", "admin@host's password: ", "Password:", "Password: "} {
+			mk(true, seg, sim.LoginStage{Kind: sim.LoginPass, Text: p}, shell)
+		}
+		for _, p := range []string{"Enter passphrase for key '/x':", "Enter passphrase for key '/home/u/.ssh/id_ed25519': "} {
+			mk(true, seg, sim.LoginStage{Kind: sim.LoginPhrase, Text: p}, shell)
+			mk(true, seg, sim.LoginStage{Kind: sim.LoginPhrase, Text: p}, sim.LoginStage{Kind: sim.LoginPass, Text: "admin@host's password: "}, shell)
+		}
+		for _, e := range []string{"Host key verification failed.", "ssh: connect to host h port 22: Connection timed out",
+			"ssh: connect to host h port 22: Operation timed out", "ssh: connect to host h port 22: No route to host",
+			"Unable to negotiate with h port 22: no matching key exchange method found. Their offer: diffie-hellman-group1-sha1",
+			"Unable to negotiate with h port 22: no matching cipher found. Their offer: aes128-cbc",
+			"Unable to negotiate with h port 22: no matching host key type found. Their offer: ssh-rsa",
+			"/etc/ssh/ssh_config: line 3: Bad configuration option: foobar", "@ WARNING: UNPROTECTED PRIVATE KEY FILE! @",
+			"ssh: Could not resolve hostname nohost: Name or service not known", "admin@host: Permission denied (publickey,password)."} {
+			mk(true, seg, sim.LoginStage{Kind: sim.LoginErr, Text: e + "\n"})
+		}
+		// the bound itself: third password prompt (ssh), third user-name prompt (telnet)
+		mk(true, seg, sim.LoginStage{Kind: sim.LoginPass, Text: "Password:"}, sim.LoginStage{Kind: sim.LoginPass, Text: "Password:"},
+			sim.LoginStage{Kind: sim.LoginPass, Text: "Password:"}, shell)
+		mk(false, seg, sim.LoginStage{Kind: sim.LoginUser, Text: "login:"}, sim.LoginStage{Kind: sim.LoginPass, Text: "Password:"},
+			sim.LoginStage{Kind: sim.LoginUser, Text: "Login incorrect\n\nlogin:"}, sim.LoginStage{Kind: sim.LoginPass, Text: "Password:"},
+			sim.LoginStage{Kind: sim.LoginUser, Text: "Login incorrect\n\nlogin:"}, sim.LoginStage{Kind: sim.LoginPass, Text: "Password:"}, shell)
+		// second attempt admitted
+		mk(true, seg, sim.LoginStage{Kind: sim.LoginPass, Text: "Password:"}, sim.LoginStage{Kind: sim.LoginPass, Text: "Password:"}, shell)
+		// silence
+		mk(false, seg, sim.LoginStage{Kind: sim.LoginUser, Text: "login:"}, sim.LoginStage{Kind: sim.LoginSilence, Text: ""})
+		mk(true, seg, sim.LoginStage{Kind: sim.LoginSilence, Text: "Connecting...\n"})
+	}
+	for i := range out {
+		out[i].silent = out[i].plan[len(out[i].plan)-1].Kind == sim.LoginSilence
+	}
+	return out
+}
+
 // c10spec is the property's specification on the device's own account of the dialogue (kinds of
 // the emissions in order): at most two answers per credential.
 func c10spec(kinds []string) string {
@@ -390,6 +447,13 @@ func runC10(c *ctx) {
 	res.Rule = "login dialogues: real generic.NewDriver(...).Open() (no auth bypass) over dialogue-automaton transports implementing InChannelAuthImplementation (telnet) / SSHImplementation+InChannelAuth (ssh): banners (incl. lines containing login:/password: mid-line), prompt spellings, 0-3 rejections, passphrase/password/user-name orders, ssh failure lines (realistic + derived from the extracted table), silence at any stage incl. mid-prompt, LF/CRLF, echo on/off; segmentations whole/1-byte/fixed/random x read sizes 3..65535; 10% malformed fragment streams. Observed: Open error class, device (state,line) log, transport Close calls, first Channel.ReadUntilPrompt / GetPrompt. The reads the transport delivered are replayed through the Lean model. non-trivial = in-domain (wf holds on the observed reads) case in which a credential was written or Open failed; distinct by case seed"
 	if c.replay != "" {
 		f := strings.Fields(c.replay)
+		if len(f) >= 2 && f[0] == "c10canon" {
+			k, _ := strconv.Atoi(f[1])
+			if all := c10canonical(); k >= 0 && k < len(all) {
+				c10check(c, all[k:k+1])
+			}
+			return
+		}
 		if len(f) >= 2 && f[0] == "c10case" {
 			seed, _ := strconv.ParseUint(f[1], 10, 64)
 			c10check(c, []c10case{genC10(seed, len(f) > 2 && f[2] == "thorough")})
@@ -400,6 +464,11 @@ func runC10(c *ctx) {
 	}
 	facts.Repo = repoDir()
 	rxDiff(c, []string{"Channel.", "Util.ansiPattern"}, c.n(150, 2000))
+	if cst := strings.Fields(c.ask([]string{"c10 consts"})[0]); len(cst) != 3 || cst[0] != "2" || cst[1] != "2" || cst[2] != "2" {
+		c10constsOff = true
+		res.Note("extracted *SeenMax constants are %v, the property fixes 2: the model (which mirrors the code) is not expected to meet the specification", cst)
+	}
+	c10check(c, c10canonical())
 	n := c.n(1600, 100000)
 	cases := make([]c10case, n)
 	for i := range cases {
@@ -451,6 +520,9 @@ func c10ask(c *ctx, lines []string) []string {
 
 type c10finding struct{ kind, detail, sig string }
 
+// c10constsOff: the extracted limits differ from the property's (obligation already broken)
+var c10constsOff bool
+
 // c10judge compares one observation with the model's answer and the specification.
 func c10judge(cs c10case, o c10obs, ans string) (dom bool, fs []c10finding, nontriv bool) {
 	add := func(kind, sig, format string, a ...any) { fs = append(fs, c10finding{kind, fmt.Sprintf(format, a...), sig}) }
@@ -487,7 +559,7 @@ func c10judge(cs c10case, o c10obs, ans string) (dom bool, fs []c10finding, nont
 			add("correspondence", "first-prompt", "first GetPrompt after Open: %q err %s, model %s; request %s", o.prompt, o.promptErr, mFound, o.request)
 		}
 	}
-	if !dom {
+	if !dom && !cs.canonical {
 		return
 	}
 	// ---- in-domain: the specification (computed here from the device's own account), the model
@@ -496,7 +568,7 @@ func c10judge(cs c10case, o c10obs, ans string) (dom bool, fs []c10finding, nont
 		add("machinery", "spec-vs-spec", "Lean spec %s, harness spec %s for kinds %v", specL, want, o.kinds)
 		return
 	}
-	if mOut != specL || mPaired != "1" {
+	if dom && !c10constsOff && (mOut != specL || mPaired != "1") {
 		add("machinery", "model-vs-spec", "in-domain: model outcome %s paired %s, spec %s; request %s", mOut, mPaired, specL, o.request)
 	}
 	// ---- oracle: the property on the implementation
@@ -568,24 +640,53 @@ func c10check(c *ctx, cases []c10case) {
 	if c.thorough() {
 		tier = " thorough"
 	}
+	type verdict struct {
+		dom, nontriv bool
+		fs           []c10finding
+	}
+	vs := make([]verdict, len(cases))
+	var failing []int
 	for i, cs := range cases {
-		o := obs[i]
-		dom, fs, nontriv := c10judge(cs, o, ans[i])
+		d, fs, nt := c10judge(cs, obs[i], ans[i])
+		vs[i] = verdict{d, nt, fs}
 		if len(fs) > 0 {
-			// timing is the only non-determinism of a case: re-run once with 4x longer timers
-			o2 := runC10case(cs, 4)
-			req := o2.request
-			if req == "" {
-				req = lines[i]
+			failing = append(failing, i)
+		}
+	}
+	// timing is the only non-determinism of a case: re-run (a bounded number of) failing cases once
+	// with 4x longer timers, in parallel; a case that then passes was a timing artefact
+	if len(failing) > 0 {
+		if len(failing) > 48 {
+			failing = failing[:48]
+		}
+		sub := make([]c10case, len(failing))
+		for k, i := range failing {
+			sub[k] = cases[i]
+		}
+		obs2 := c10runAll(sub, 4)
+		req := make([]string, len(sub))
+		for k := range obs2 {
+			req[k] = obs2[k].request
+			if req[k] == "" {
+				req[k] = "c10 open t 1000 - - - 0a q ."
 			}
-			a2 := c.ask([]string{req})
-			dom2, fs2, nt2 := c10judge(cs, o2, a2[0])
-			if len(fs2) == 0 {
+		}
+		ans2 := c10ask(c, req)
+		for k, i := range failing {
+			d, fs, nt := c10judge(sub[k], obs2[k], ans2[k])
+			if len(fs) == 0 {
 				res.Count("retried-clean")
 			}
-			o, dom, fs, nontriv = o2, dom2, fs2, nt2
+			obs[i], vs[i] = obs2[k], verdict{d, nt, fs}
 		}
+	}
+	for i, cs := range cases {
+		o, dom, fs, nontriv := obs[i], vs[i].dom, vs[i].fs, vs[i].nontriv
 		caseLine := fmt.Sprintf("c10case %d%s", cs.seed, tier)
+		if cs.canonical {
+			caseLine = fmt.Sprintf("c10canon %d", cs.canonIdx)
+			res.Count("canonical")
+		}
 		fl := "telnet"
 		if cs.ssh {
 			fl = "ssh"
@@ -604,7 +705,7 @@ func c10check(c *ctx, cases []c10case) {
 			res.InDomain++
 			res.Count(fmt.Sprintf("indomain %s outcome:%s lines:%d", fl, o.outcome, len(o.lines)))
 		}
-		res.Case(strconv.FormatUint(cs.seed, 10), nontriv)
+		res.Case(caseLine, nontriv)
 		if i%271 == 0 {
 			var plan []string
 			for _, s := range cs.plan {
